@@ -55,7 +55,7 @@ def obsVal (cells : List (List Int)) : Val → OVal
   | .ref c => .cell c (deref cells c)
 
 def slotRank : Slot → Nat
-  | .bounds => 0 | .names => 1 | .objects => 2
+  | .bounds => 0 | .names => 1 | .objects => 2 | .tags => 3
 
 def insertSlot (e : Slot × CellId × List Int) : List (Slot × CellId × List Int) → List (Slot × CellId × List Int)
   | [] => [e]
@@ -253,9 +253,63 @@ def creationOK (prev cur : Snap) (k : ClsId) (kwargs0 : List (Name × Lit)) : Op
           else none).head?
     | _, _ => some "new instance not observed"
 
+/-- a class-level operation on `K.x` changes only what classes that resolve `x` to the *same* Parameter object
+as `K` see (same `owner`): a subclass's Parameter has mutable attribute values of its own -/
+def classOpLocal (prev cur : Snap) (k : ClsId) (x : Name) : Option String :=
+  match ((cur.classes[k]?).bind (lookupN · x)).map (·.owner) with
+  | Option.none => Option.none
+  | some own =>
+    match (cur.classes.zip prev.classes).zipIdx.find? (fun ((c, p), _) =>
+        c.any fun (y, P) => (y != x || P.owner != own) && lookupN p y != some P) with
+    | some (_, k2) => some s!"a class-level operation on class {k}, p{x} changed what class {k2} sees of another Parameter object"
+    | Option.none => Option.none
+
+/-- a per-instance Parameter copy that comes into being equals the class Parameter: same attribute values,
+containers with equal contents (of its own) -/
+def newCopiesEqualClass (prev cur : Snap) (edited : InstId → Name → Bool) : Option String :=
+  (cur.insts.zipIdx.flatMap fun (I, i) =>
+    I.params.filterMap fun (x, P) =>
+      if edited i x then Option.none else
+      match (prev.insts[i]?).bind (fun J => lookupN J.params x), (prev.classes[I.cls]?).bind (lookupN · x) with
+      | Option.none, some Q =>
+        if P.kind != Q.kind || P.instantiate != Q.instantiate || P.constant != Q.constant || P.perInstance != Q.perInstance
+           || P.checkOnSet != Q.checkOnSet || P.allowRefs != Q.allowRefs || P.precedence != Q.precedence
+           || P.boundsTup != Q.boundsTup || P.default != Q.default
+           || P.mslots.map (fun (s, _, _) => s) != Q.mslots.map (fun (s, _, _) => s) then
+          some s!"instance {i}: the new per-instance Parameter p{x} differs from the class Parameter"
+        else Option.none
+      | _, _ => Option.none).head?
+
+/-- … its containers hold what the class Parameter's held *before* the step (the step itself may then
+change the copy, e.g. a Selector without check_on_set adding the assigned value) -/
+def newCopySlotsFromClass (prev cur : Snap) (grew : Name → List Int → List Int → Bool) : Option String :=
+  (cur.insts.zipIdx.flatMap fun (I, i) =>
+    I.params.filterMap fun (x, P) =>
+      match (prev.insts[i]?).bind (fun J => lookupN J.params x), (prev.classes[I.cls]?).bind (lookupN · x) with
+      | Option.none, some Q =>
+        if (P.mslots.zip Q.mslots).all (fun ((_, _, l), (_, _, l0)) => l = l0 || grew x l0 l) then Option.none
+        else some s!"instance {i}: a container attribute of the new per-instance Parameter p{x} does not hold what the class Parameter's holds"
+      | _, _ => Option.none).head?
+
 /-- the rules one step obeys, given the snapshots before and after -/
 def stepOK (prev cur : Snap) (op : Op) : Option String :=
   match privateStaysPrivate prev cur with
+  | some w => some w
+  | none =>
+  -- (the copy an attribute assignment `obj.param.x.<attr> = v` creates is changed by that very step)
+  match newCopiesEqualClass prev cur (fun i x => match op with
+      | .slotSet (.inst j) y _ => i = j && x = y
+      | _ => false) with
+  | some w => some w
+  | none =>
+  -- only the step's own value may have been added to a container of the new copy (Selector without check_on_set)
+  match newCopySlotsFromClass prev cur (fun x l0 l => match op with
+      | .setVal (.inst _) y (.int n) => x = y && l = l0 ++ [n]
+      | .slotMut (.inst _) y (.objectsAppend n) => x = y && l = l0 ++ [n]
+      | .slotMut (.inst _) y (.namesInsert n) => x = y && l = l0 ++ [n]
+      | .slotMut (.inst _) y (.boundsSetHi n) => x = y && l.length = l0.length && l.getLast? = some n
+      | .slotSet (.inst _) y _ => x = y
+      | _ => false) with
   | some w => some w
   | none =>
   match op with
@@ -277,12 +331,12 @@ def stepOK (prev cur : Snap) (op : Op) : Option String :=
     if cur.insts != prev.insts then some "declaring a class changed an instance" else none
   | .sharedFail =>
     if cur.classes != prev.classes || cur.insts != prev.insts then some "a failed shared_parameters block had an effect" else none
-  | .setVal (.cls _) _ _ | .slotSet (.cls _) _ _ | .slotMut (.cls _) _ _ =>
+  | .setVal (.cls k) x _ | .slotSet (.cls k) x _ | .slotMut (.cls k) x _ =>
     -- a class-level change never touches what an instance *owns*: its values (set_instance_keeps_own,
     -- constant_keeps_construction_object) and its Parameter copies
     if cur.insts.map (fun I => (I.values, I.params)) != prev.insts.map (fun I => (I.values, I.params)) then
       some "a class-level operation changed the own values or Parameter copies of an instance"
-    else none
+    else classOpLocal prev cur k x
   | _ =>
     match targetInst op with
     | some (i, x) =>
